@@ -3,6 +3,8 @@ package checks
 import (
 	"encoding/base64"
 	"fmt"
+	"math"
+	"math/big"
 	"net"
 	"net/http"
 	"net/http/httptest"
@@ -75,14 +77,18 @@ func (rt authRoute) authentic(q authReq, now time.Time, fwdStatus int) (ok bool,
 		if err != nil {
 			return false, false
 		}
-		signedAt := time.Unix(ts, 0).UTC()
-		d := now.Sub(signedAt)
-		if d < 0 {
-			d = -d
-		}
-		if d > rt.Tolerance {
+		// far-away timestamps: decided on plain seconds (time.Time.Sub saturates at
+		// +-292 years, and the absolute value of the saturated minimum is negative)
+		if ts > 1<<40 || ts < -(1<<40) {
 			return false, false
 		}
+		signedAt := time.Unix(ts, 0).UTC()
+		diffNS := new(big.Int).Sub(big.NewInt(now.UnixNano()), new(big.Int).Mul(big.NewInt(ts), big.NewInt(1e9)))
+		diffNS.Abs(diffNS)
+		if diffNS.Cmp(big.NewInt(int64(rt.Tolerance))) > 0 {
+			return false, false
+		}
+		d := time.Duration(diffNS.Int64())
 		u := q.Target
 		if i := strings.IndexByte(u, '?'); i >= 0 {
 			u = u[:i]
@@ -391,6 +397,25 @@ func C08(c *vlib.Ctx) {
 					case m == 5:
 						mut, tsAt = "ts_inside_tolerance", tsAt.Add(-(rt.Tolerance - time.Second))
 					}
+					farTS := int64(0)
+					if mut == "valid" && m >= 22 && r.Chance(0.5) {
+						// timestamps far away from the gateway clock (signed correctly)
+						year := int64(365.25 * 86400)
+						far := []struct {
+							name string
+							off  int64
+						}{{"ts_plus_100y", 100 * year}, {"ts_minus_100y", -100 * year}, {"ts_plus_290y", 290 * year}, {"ts_plus_293y", 293 * year}, {"ts_plus_300y", 300 * year}, {"ts_minus_300y", -300 * year},
+							{"ts_plus_1000y", 1000 * year}, {"ts_plus_100000y", 100000 * year}, {"ts_minus_100000y", -100000 * year}, {"ts_zero", -c08T0.Unix()}, {"ts_max_int64", 0}, {"ts_min_int64", 0}}
+						k := far[r.Intn(len(far))]
+						mut = k.name
+						farTS = c08T0.Unix() + k.off
+						switch k.name {
+						case "ts_max_int64":
+							farTS = math.MaxInt64
+						case "ts_min_int64":
+							farTS = math.MinInt64
+						}
+					}
 					now = tsAt // the clock follows the signed instant unless the mutation is about the offset
 					switch mut {
 					case "ts_tolerance_plus_1s", "ts_at_tolerance", "ts_inside_tolerance", "ts_future_plus_1s":
@@ -414,6 +439,10 @@ func C08(c *vlib.Ctx) {
 					}
 					clock.Set(now)
 					tsStr := strconv.FormatInt(tsAt.Unix(), 10)
+					if farTS != 0 {
+						clock.Set(c08T0)
+						tsStr = strconv.FormatInt(farTS, 10)
+					}
 					cleanT := signTarget
 					if i := strings.IndexByte(cleanT, '?'); i >= 0 {
 						cleanT = cleanT[:i]
